@@ -85,6 +85,7 @@ def run(ctx):
 
     ws_rule(ctx, syn)
     limit_rule(ctx, syn)
+    argtype_rule(ctx, syn)
 
     # ---------------- keyword tables
     r_kw = ctx.rule("C09.KW", "every keyword a printer can emit is accepted by the parser")
@@ -306,3 +307,107 @@ def limit_rule(ctx, syn):
                     reported.add(key)
                     ctx.report(r, key, "Constraint::Limit{begin:%d,end:%d} prints as `%s`, which parses back as %r" % (b, e, text.strip(), got), cprint.file, prm.get("l"))
     ctx.floor(r, n, 49, "LIMIT print/parse evaluations")
+
+
+def argtype_rule(ctx, syn):
+    """get_arg_type classifies an argument and parse_dataoperator trusts the class (unreachable!/expect
+    on the 'impossible' cases).  The two are evaluated together on a grid of argument texts: the
+    composition must never reach a panic source, whatever the text."""
+    from formula import Evaluator, Unknown, Panic, EnumVal, ok, err, some, is_some
+    from props.c10 import base_hooks, closure_call
+    r = ctx.rule("C09.ARGTYPE", "parse_dataoperator(op, text, get_arg_type(text, quoted)) reaches no panic source for any argument text: the classifier and its consumer agree on what each class guarantees")
+    fns = {}
+    for name in ("get_arg_type", "parse_dataoperator", "parse_int_arg", "parse_float_arg"):
+        c = [f for f in syn.fns if f.name == name and f.file == "src/api/query.rs" and f.body is not None]
+        if len(c) != 1:
+            if name in ("get_arg_type", "parse_dataoperator"):
+                ctx.anchor_missing(r, "fn " + name)
+                return
+            continue
+        fns[name] = c[0]
+        ctx.functions_analysed.add(c[0].qual)
+    hooks = base_hooks()
+    hooks["chars"] = lambda ev, recv, args, node, env: list(recv) if isinstance(recv, str) else NotImplemented
+    hooks["is_ascii_digit"] = lambda ev, recv, args, node, env: (len(recv) == 1 and recv in "0123456789") if isinstance(recv, str) else NotImplemented
+    hooks["to_ascii_lowercase"] = lambda ev, recv, args, node, env: recv.lower() if isinstance(recv, str) else NotImplemented
+    hooks["eq_ignore_ascii_case"] = lambda ev, recv, args, node, env: recv.lower() == args[0].lower() if isinstance(recv, str) else NotImplemented
+    hooks["call:Box::new"] = lambda ev, recv, args, node, env: args[0]
+    hooks["map_err"] = lambda ev, recv, args, node, env: recv
+    hooks["split"] = lambda ev, recv, args, node, env: recv.split(args[0]) if isinstance(recv, str) and isinstance(args[0], str) else NotImplemented
+    hooks["collect"] = lambda ev, recv, args, node, env: recv if isinstance(recv, list) else NotImplemented
+    hooks["macro:format"] = lambda ev, node, env: "<msg>"
+
+    def h_map(ev, recv, args, node, env):
+        if isinstance(recv, list) and args and isinstance(args[0], tuple) and args[0][0] == "closure":
+            return [closure_call(ev, args[0], [x], env) for x in recv]
+        return NotImplemented
+    hooks["map"] = h_map
+
+    def h_expect(ev, recv, args, node, env):
+        if isinstance(recv, tuple) and recv and recv[0] == "ok":
+            return recv[1]
+        if isinstance(recv, tuple) and recv and recv[0] == "err":
+            raise Panic("expect-on-err", node.get("l"))
+        if is_some(recv):
+            return recv[1]
+        if recv is None:
+            raise Panic("expect-on-none", node.get("l"))
+        return NotImplemented
+    hooks["expect"] = h_expect
+    hooks["unwrap"] = h_expect
+    for helper in ("parse_int_arg", "parse_float_arg"):
+        if helper in fns:
+            def mk(hf):
+                out_ty = re.sub(r"\s+", "", (hf.sig.get("output") or {}).get("s", ""))
+                want = "f64" if "f64" in out_ty else "isize"
+
+                def h(ev, recv, args, node, env):
+                    params = [p["pat"].get("name") for p in hf.sig["inputs"]]
+                    hk = dict(hooks)
+                    base_parse = hooks["parse"]
+
+                    def parse2(ev2, recv2, args2, node2, env2):
+                        if not (node2.get("turbofish") or "").strip():
+                            node2 = dict(node2, turbofish="::<%s>" % want)   # inferred from the helper's return type
+                        return base_parse(ev2, recv2, args2, node2, env2)
+                    hk["parse"] = parse2
+                    return Evaluator(hooks=hk).run_body(hf.body, dict(zip(params, args)))
+                return h
+            hooks["call:" + helper] = mk(fns[helper])
+    texts = ["", "true", "false", "True", "FALSE", "tRuE", "null", "NULL", "Null", "any", "ANY", "0", "-1", "12", "-", "--1", "1-2", "1.5", "-2.5", "1.2.3", ".", "1.", "99999999999999999999999",
+             "abc", "a|b", "1|2", "1|x|2.5", "|", "T10", "t10", "T10x", "yes", "é", "truee"]
+    ops = ["=", "!=", ">", ">=", "<", "<=", "~"]
+    reported = set()
+    n = 0
+    gat = fns["get_arg_type"]
+    pdo = fns["parse_dataoperator"]
+    for text in texts:
+        for quoted in (False, True):
+            try:
+                vt = Evaluator(hooks=hooks).run_body(gat.body, {"s": text, "quoted": quoted})
+            except Panic as p:
+                k2 = "classifier-panic:%s" % p.kind
+                if k2 not in reported:
+                    reported.add(k2)
+                    ctx.report(r, k2, "get_arg_type(%r, quoted=%s) reaches a panic source (%s, line %s)" % (text, quoted, p.kind, p.line), gat.file, p.line)
+                continue
+            except Unknown as u:
+                if "unevaluated" not in reported:
+                    reported.add("unevaluated")
+                    ctx.report(r, "unevaluated", "get_arg_type could not be evaluated (%s) on %r: the agreement with parse_dataoperator is not established" % (u, text), gat.file, gat.line)
+                continue
+            for op in ops:
+                n += 1
+                try:
+                    Evaluator(hooks=hooks).run_body(pdo.body, {"opstr": op, "value": text, "valuetype": vt})
+                except Panic as p:
+                    k2 = "%s:%s" % (vt.name if isinstance(vt, EnumVal) else "?", p.kind)
+                    if k2 not in reported:
+                        reported.add(k2)
+                        ctx.report(r, k2, "the argument %r (quoted=%s) is classified as %r and parse_dataoperator(%r, ..) then reaches %s at line %s: a query text makes the parser panic" % (text, quoted, vt, op, p.kind, p.line), pdo.file, p.line, {"text": text, "quoted": quoted, "class": repr(vt)})
+                except Unknown as u:
+                    if "unevaluated" not in reported:
+                        reported.add("unevaluated")
+                        ctx.report(r, "unevaluated", "parse_dataoperator could not be evaluated (%s) on (%r, %r, %r): the agreement with get_arg_type is not established" % (u, op, text, vt), pdo.file, pdo.line)
+            r.hit("text:%s/%s" % (text, quoted), sample={"text": text, "quoted": quoted, "class": repr(vt)} if text in ("True", "1.2.3", "T10", "a|b") else None)
+    ctx.floor(r, n, 400, "classifier/consumer evaluations")
